@@ -30,6 +30,11 @@ open Parsley Parsley.Prim Parsley.Obj Parsley.ObjStm Parsley.ObjStmSpec Parsley.
                      fixed-Huffman ...), optionally with FlateDecode + TIFF/PNG predictor layers
           filter     (kind rej) one layer of such a chain corrupted by a C06 corruption: must be `err`
           filt       (kind mut) a byte of the encoded content altered: correspondence and no panic
+          parm       (kind mut) a predictor layer whose default-valued /DecodeParms entries are written as objects
+                     that are not integers (`/Columns (1)`, `1.0`, `null`, `/1`, `true`, `[1]`, `1 0 R`):
+                     correspondence and no panic
+   The /DecodeParms dictionary of a predictor layer is written by the spec-side writer PredSpec.Params.entries:
+   an omission mask leaves out any subset of the entries whose value is the default of ISO 32000-1 Table 8.
 -/
 
 def sexpOpt : Option Obj → String
@@ -294,7 +299,8 @@ def memberWant (b : Built) (ps : List (Nat × Nat)) (predef : List ObjId) (cur :
 
 /-- a layer still to be fitted to its input: a C06 generator layer; with `predSel` a FlateDecode layer
     (encoded as the C06 layer `base`, kind F) whose /DecodeParms name a predictor: (predictor, geometry
-    choice, row-width choice), resolved against the length of the layer's input -/
+    choice, row-width choice), resolved against the length of the layer's input.  `parmStyle` is the
+    writer's choice for the dictionary: omission mask (`% 16`) + 16 * junk type -/
 structure FTemplate where
   base : C06.Layer
   predSel : Option (Nat × Nat × Nat) := none
@@ -316,6 +322,12 @@ def FTemplate.resolve (t : FTemplate) (len : Nat) : FLayer :=
   match t.predSel with
   | none => ⟨t.base, none, t.parmStyle⟩
   | some (pr, g, ws) =>
+    -- one time in three a SINGLE-COLUMN image (columns = 1, the default of /Columns): a row is one pixel
+    if ws % 3 == 1 then
+      let gs := C06.singleColumn (pr == 2) len
+      let (c, b, cols) := gs[g % gs.length]?.getD (1, 8, 1)
+      ⟨{ t.base with kind := 'F' }, some ⟨pr, c, cols, b⟩, t.parmStyle⟩
+    else
     let ds := (List.range 41).filter fun d => d ≥ 1 && len % d == 0
     let w := if ws % 5 == 0 || ds.isEmpty then len else ds[ws % ds.length]?.getD len
     let gs := geometries (pr == 2) w
@@ -332,12 +344,25 @@ def FLayer.encode (l : FLayer) (x : Bytes) : Bytes :=
 def FLayer.nameText (l : FLayer) : String :=
   match l.base.kind with | 'H' => "/ASCIIHexDecode" | 'A' => "/ASCII85Decode" | _ => "/FlateDecode"
 
+/-- an object that is not an integer, where the integer `v` would stand -/
+def junkText (t v : Nat) : String :=
+  match t % 7 with
+  | 0 => "null" | 1 => s!"{v}.0" | 2 => s!"({v})" | 3 => s!"/{v}" | 4 => "true" | 5 => s!"[{v}]" | _ => s!"{v} 0 R"
+
+/-- the /DecodeParms entry of a layer.  A predictor layer: the dictionary written by the spec-side writer
+    `PredSpec.Params.entries` with omission mask `parmStyle % 16` (a default-valued entry may be left out,
+    ISO 32000-1 Table 8); with `parmStyle / 16 = j > 0` the entries left out are written as non-integers -/
 def FLayer.parmText (l : FLayer) : String :=
   match l.pred with
   | some p =>
-    s!"<</Predictor {p.predictor} /Columns {p.columns}" ++
-      (if p.colors != 1 || l.parmStyle % 2 == 1 then s!" /Colors {p.colors}" else "") ++
-      (if p.bpc != 8 || l.parmStyle / 2 % 2 == 1 then s!" /BitsPerComponent {p.bpc}" else "") ++ ">>"
+    let (a, b, c, d) := p.entries (l.parmStyle % 16)
+    let j := l.parmStyle / 16
+    let ent (k : String) (o : Option Nat) (dflt i : Nat) : String :=
+      match o with
+      | some v => s!"/{k} {v} "
+      | none => if j == 0 then "" else s!"/{k} {junkText (j + i) dflt} "
+    "<<" ++ ent "Predictor" a PredSpec.defaultPredictor 0 ++ ent "Columns" c PredSpec.defaultColumns 2 ++
+      ent "Colors" b PredSpec.defaultColors 1 ++ ent "BitsPerComponent" d PredSpec.defaultBpc 3 ++ ">>"
   | none => match l.base.pv with | 1 => "<<>>" | 2 => "<</Predictor 1>>" | 3 => "<</Colors 3 /Columns 5>>" | _ => "null"
 
 /-- the encoded content (layers applied innermost first) and the resolved layers; the C06 corruption
@@ -390,7 +415,9 @@ def rndTemplates (r : Rng) (i : Nat) : List FTemplate × Rng :=
       let (pv, r) := r.nat 4
       (ch.map fun l => { l with pv := pv }, r)
   let (pk, r) := r.nat 3
-  let (ps, r) := r.nat 4
+  -- the writer's omission choice: every default-valued entry left out (9/24), or any mask
+  let (ps, r) := r.nat 24
+  let ps := if ps ≥ 16 then 15 else ps
   let ts : List FTemplate := base.map fun l => ⟨l, none, ps⟩
   if pk != 0 then (ts, r) else
     let (pos, r) := r.nat (ts.length + 1)
@@ -433,6 +460,7 @@ def gen (seed n : Nat) (tier : String) (emit : String → IO Unit) : IO Unit := 
   -- random structured cases and their single-rule corruptions
   let mut r := Rng.mk' seed
   let mut chainIdx := seed % 97
+  let mut predIdx := seed % 89
   for _ in List.range n do
     let (nobj, r1) := r.nat 6
     let nobj := nobj + 1
@@ -514,6 +542,34 @@ def gen (seed n : Nat) (tier : String) (emit : String → IO Unit) : IO Unit := 
         let k := arg % enc.length
         let encMut := if opSel == 0 then enc.take k else setNth enc k nb
         emit s!"mut filt {maxd} {junk.length} {predefStr pre} {hexOfBytes dictC} {hexOfBytes (junk ++ encMut)} ="
+    -- the same stream through ONE FlateDecode layer with a predictor, enumerated systematically: predictor
+    -- 2, 10..14 x {single-column image, rows of several pixels, one row} x geometry choice x the writer's
+    -- omission choice {all default-valued entries left out, /Columns left out, all written, a random mask};
+    -- every fourth one again with the left-out entries written as non-integer objects (kind mut)
+    let (pk2, r32) := r.nat 3
+    r := r32
+    if pk2 == 0 then
+      predIdx := predIdx + 1
+      let pr := ([2, 10, 11, 12, 13, 14] : List Nat)[predIdx % 6]?.getD 12
+      let wsel := ([1, 4, 2, 1, 0, 3] : List Nat)[predIdx / 6 % 6]?.getD 1
+      let g := predIdx / 36 + predIdx % 7
+      let (rm, r33) := r.nat 16
+      let (mode, r34) := r33.nat 4
+      let (jk, r35) := r34.nat 3
+      r := r35
+      let mask := match predIdx / 6 % 4 with | 0 => 15 | 1 => 4 | 2 => 0 | _ => rm
+      let junk : Bytes := match jk with | 0 => [] | 1 => bs "JUNK" | _ => bs "<</N 1>>stream\n"
+      let t : FTemplate := ⟨⟨'F', mode, predIdx % 50, 0, 0⟩, some (pr, g, wsel), mask⟩
+      let (enc, ls) := encodeChain 0 0 0 [t] 1 data
+      let (dictP, r36) := dictFor r nobj first (filterText ls predIdx)
+      r := r36
+      emit s!"rt chain1 {maxd} {junk.length} {predefStr pre} {hexOfBytes dictP} {hexOfBytes (junk ++ enc)} {hexOfBytes data} => {memberWant b ps pre junk.length}"
+      if predIdx % 4 == 0 then
+        let tj : FTemplate := { t with parmStyle := (if mask % 16 == 0 then 15 else mask) + 16 * (1 + predIdx / 4 % 7) }
+        let (encJ, lsJ) := encodeChain 0 0 0 [tj] 1 data
+        let (dictJ, r37) := dictFor r nobj first (filterText lsJ predIdx)
+        r := r37
+        emit s!"mut parm {maxd} {junk.length} {predefStr pre} {hexOfBytes dictJ} {hexOfBytes (junk ++ encJ)} ="
     -- single-rule corruptions
     let (mk, r16) := r.nat 13
     let (pos, r17) := r16.nat nobj
